@@ -130,6 +130,14 @@ class Bounds:
         if r:
             lo, hi = max(lo, r[0]), min(hi, r[1])
         k = a[0]
+        lr = getattr(self, "local_ranges", None)
+        if lr:
+            # all-time range of a local established by a loop-bound lemma (nopanic.halving_loops): applies to the engine's placeholder for
+            # "the value of this local in some iteration", also when it is the value half of the checked-add temporary that feeds it
+            if k == "loopvar" and a[1] == self.fn.path and a[2] in lr:
+                lo, hi = max(lo, lr[a[2]][0]), min(hi, lr[a[2]][1])
+            if k == "field" and a[2] == "0" and isinstance(a[1], tuple) and a[1] and a[1][0] == "loopvar" and a[1][1] == self.fn.path and (a[1][2], "0") in lr:
+                lo, hi = max(lo, lr[(a[1][2], "0")][0]), min(hi, lr[(a[1][2], "0")][1])
         if k == "field" and isinstance(a[1], tuple) and a[1] and a[1][0] in ("obj", "loopvar") and str(a[2]).isdigit():
             # component of a tuple-typed local, e.g. the value half of a checked arithmetic result `(usize, bool)`
             f0 = self.W.prog.fns.get(a[1][1])
@@ -160,6 +168,14 @@ class Bounds:
                     bl0 = None
                 if isinstance(bl0, int):
                     lo, hi = max(lo, bl0), min(hi, bl0)
+                else:
+                    try:
+                        from lib import bytelen_max as _bytelen_max
+                        bm = _bytelen_max(self.W, self.ev, base)
+                    except Exception:
+                        bm = None
+                    if isinstance(bm, int):
+                        hi = min(hi, bm)
             if isinstance(base, tuple) and base[0] == "field" and isinstance(base[1], tuple) and base[1][0] == "param":
                 f = self.W.prog.fns.get(base[1][1])
                 if f is not None and f.impl_self and (f.impl_self, base[2]) in self.field_min_len:
